@@ -204,38 +204,48 @@ theorem transformLoop_eq (info : Bytes) :
       have : info[hd]? = none := List.getElem?_eq_none (by omega)
       simp [TTH.index, this, c3]
 
-theorem decLoop_eq {ρ : Type} (I : ReaderI ρ) (info : Bytes) (hb : info.length < 4611686018427387904) (n : Nat)
-    (hn : n < 4611686018427387904) :
-    ∀ (k fuel hd i : Nat) (tids : Bytes), i + k = n → tids.length = n → k < fuel → hd ≤ info.length →
+/-- The transform-id loop, for ANY function `L` that satisfies the loop's two defining equations (one more round
+    below the bound, done at the bound). The generated `Funcs.tth_Decode_loop1 I info …` is such an `L` whatever its
+    parameter list is (a refactoring of the Go source changes the number / order of the variables the loop function
+    is closed over, e.g. `for i := range transformIDs`), so this lemma does not mention it; `tth_Decode_eq` finds
+    the call in its goal and proves the two equations there by unfolding. -/
+theorem decLoop_gen {R : Type} (info : Bytes) (hb : info.length < 4611686018427387904) (n : Nat)
+    (hn : n < 4611686018427387904) (L : Nat → Int → Bytes → Int → GM (LoopR R (Int × Bytes × Int)))
+    (hstep : ∀ (f : Nat) (hd i : Int) (tids : Bytes), i < (n : Int) →
+      L (f + 1) hd tids i = (GoSem.idx info hd).bind fun t => (GoSem.vset tids 0 i t).bind fun tids' =>
+        L f (wrap .i64 (hd + 1)) tids' (wrap .i64 (i + 1)))
+    (hdone : ∀ (f : Nat) (hd i : Int) (tids : Bytes), ¬ i < (n : Int) →
+      L (f + 1) hd tids i = .ok (.done (hd, tids, i))) :
+    ∀ (k fuel hd i : Nat) (tids : Bytes) (hdI iI : Int), hdI = (hd : Int) → iI = (i : Int) →
+      i + k = n → tids.length = n → k < fuel → hd ≤ info.length →
       if hd + k ≤ info.length then
-        ∃ t', Funcs.tth_Decode_loop1 I info (n : Int) fuel (hd : Int) tids (i : Int)
-          = .ok (.done (((hd + k : Nat) : Int), t', (n : Int)))
-      else Funcs.tth_Decode_loop1 I info (n : Int) fuel (hd : Int) tids (i : Int) = .panic "index" := by
+        ∃ t', L fuel hdI tids iI = .ok (.done (((hd + k : Nat) : Int), t', (n : Int)))
+      else L fuel hdI tids iI = .panic "index" := by
   intro k
   induction k with
   | zero =>
-    intro fuel hd i tids hi ht hf hh
+    intro fuel hd i tids hdI iI ehd ei hi ht hf hh
+    subst ehd ei
     cases fuel with
     | zero => omega
     | succ f =>
-      have : ¬ ((i : Int) < (n : Int)) := by omega
       have hi' : i = n := by omega
-      simp [Funcs.tth_Decode_loop1, hh, hi']
+      rw [hdone f _ _ _ (by omega)]
+      simp [hh, hi']
   | succ k ih =>
-    intro fuel hd i tids hi ht hf hh
+    intro fuel hd i tids hdI iI ehd ei hi ht hf hh
+    subst ehd ei
     cases fuel with
     | zero => omega
     | succ f =>
-      have hlt : ((i : Int) < (n : Int)) := by omega
-      rw [Funcs.tth_Decode_loop1]
+      rw [hstep f _ _ _ (by omega)]
       by_cases c : hd < info.length
       · have e1 : wrap .i64 ((hd : Int) + 1) = ((hd + 1 : Nat) : Int) := by rw [wrap_i64_id] <;> omega
         have e2 : wrap .i64 ((i : Int) + 1) = ((i + 1 : Nat) : Int) := by rw [wrap_i64_id] <;> omega
         have hv : ¬ ((i : Int) < 0 ∨ (i : Int) ≥ vlen tids 0) := by unfold vlen len; omega
-        simp only [hlt, decide_true, if_true, idx_ok info (hd : Int) (by omega) (by omega), Out.bind_ok,
-          Out.bind_eq, vset, hv, if_false, e1, e2]
+        simp only [idx_ok info (hd : Int) (by omega) (by omega), Out.bind_ok, vset, hv, if_false, e1, e2]
         have := ih f (hd + 1) (i + 1) (putAt tids ((0 : Int) + (i : Int)).toNat
-          [byteOf ((info[(hd : Int).toNat]'(by simp; omega)).toNat : Int)]) (by omega)
+          [byteOf ((info[(hd : Int).toNat]'(by simp; omega)).toNat : Int)]) _ _ rfl rfl (by omega)
           (by simp [putAt]; omega) (by omega) (by omega)
         by_cases c2 : hd + 1 + k ≤ info.length
         · have c3 : hd + (k + 1) ≤ info.length := by omega
@@ -247,8 +257,8 @@ theorem decLoop_eq {ρ : Type} (I : ReaderI ρ) (info : Bytes) (hb : info.length
           exact this
       · have c3 : ¬ hd + (k + 1) ≤ info.length := by omega
         have : info[hd]? = none := List.getElem?_eq_none (by omega)
-        have hn : ¬ ((hd : Int) < 0) := by omega
-        simp [hlt, c3, GoSem.idx, hn, this]
+        have hn0 : ¬ ((hd : Int) < 0) := by omega
+        simp [c3, GoSem.idx, hn0, this]
 
 /-! ## Decode -/
 
@@ -356,6 +366,7 @@ theorem iOfNext_cases {σ : Type} (next : σ → Int → RdRes × σ) (errOf : R
 theorem slice_panic_hi (b : Bytes) (lo hi : Int) (h : hi > (b.length : Int)) : GoSem.slice b lo hi = .panic "slice" := by
   unfold GoSem.slice len; simp [h]
 
+set_option linter.unusedSimpArgs false in
 theorem tth_Decode_eq {σ : Type} (next : σ → Int → RdRes × σ) (errOf : RErr → GoErr) (errBack : GoErr → Option RErr)
     (hE : ErrOK errOf errBack) (hN : NextBounded next) (fuel : Nat) (hf : 65537 ≤ fuel) (s : σ) :
     liftDec errBack (Funcs.tth_Decode (iOfNext next errOf) fuel s) = obsDec (TTH.decodeG next s) := by
@@ -420,8 +431,14 @@ theorem tth_Decode_eq {σ : Type} (next : σ → Int → RdRes × σ) (errOf : R
         have hms : metaSize b < 4294967296 := by unfold metaSize; omega
         generalize metaSize b = size at hms
         by_cases hs : size > 65536 ∨ size < 2
-        · have hs' : (65536 < (size : Int) ∨ (size : Int) < 2) := by omega
-          simp [hs, hs', liftDec, obsDec, errBadSize, errNotTTH, decErr, mergeKV]
+        · -- the atoms, not the disjunction: `a || b` and `b || a` both close
+          rcases hs with h | h
+          · have a1 : (65536 < (size : Int)) := by omega
+            have a2 : ¬ ((size : Int) < 2) := by omega
+            simp [h, a1, a2, liftDec, obsDec, errBadSize, errNotTTH, decErr, mergeKV]
+          · have a1 : ¬ (65536 < (size : Int)) := by omega
+            have a2 : ((size : Int) < 2) := by omega
+            simp [h, a1, a2, liftDec, obsDec, errBadSize, errNotTTH, decErr, mergeKV]
         · have hs' : ¬ (65536 < (size : Int) ∨ (size : Int) < 2) := by omega
           have hs1 : ¬ ((size : Int) > 65536) := by omega
           have hs2 : ¬ ((size : Int) < 2) := by omega
@@ -469,12 +486,31 @@ theorem tth_Decode_eq {σ : Type} (next : σ → Int → RdRes × σ) (errOf : R
             · have hmk : makeBytes (tn : Int) = .ok (List.replicate tn 0) := by
                 have : ¬ ((tn : Int) < 0) := by omega
                 simp [makeBytes, this]
-              have L := decLoop_eq (iOfNext next errOf) info hb62 tn (by omega) tn fuel 2 0 (List.replicate tn 0)
-                (by omega) (by simp) (by omega) (by omega)
               simp only [ht, decide_false, Bool.false_eq_true, if_false, hmk, Out.bind_ok,
                 transformLoop_eq info tn 2 (by omega)]
+              -- the call of the loop function, whatever its parameter list is (longest first: a shorter pattern
+              -- would elaborate to a partial application)
+              first
+                | generalize hc : Funcs.tth_Decode_loop1 _ _ _ _ _ _ _ _ _ _ = call
+                | generalize hc : Funcs.tth_Decode_loop1 _ _ _ _ _ _ _ _ _ = call
+                | generalize hc : Funcs.tth_Decode_loop1 _ _ _ _ _ _ _ _ = call
+                | generalize hc : Funcs.tth_Decode_loop1 _ _ _ _ _ _ _ = call
+                | generalize hc : Funcs.tth_Decode_loop1 _ _ _ _ _ _ = call
+              have L : if 2 + tn ≤ info.length then
+                    ∃ t', call = .ok (.done (((2 + tn : Nat) : Int), t', (tn : Int)))
+                  else call = .panic "index" := by
+                rw [← hc]
+                exact decLoop_gen info hb62 tn (by omega) _
+                  (by intro f hd i tids h
+                      have h' : ¬ ((tn : Int) ≤ i) := by omega
+                      simp [Funcs.tth_Decode_loop1, h, h', len])
+                  (by intro f hd i tids h
+                      have h' : (tn : Int) ≤ i := by omega
+                      simp [Funcs.tth_Decode_loop1, h, h', len])
+                  tn fuel 2 0 _ _ _ rfl rfl (by omega) (by simp) (by omega) (by omega)
+              clear hc
               by_cases hl : 2 + tn ≤ info.length
-              · simp only [hl, if_true, Int.natCast_zero, show ((2 : Nat) : Int) = 2 from rfl] at L
+              · simp only [hl, if_true] at L
                 obtain ⟨t', hL⟩ := L
                 simp only [hL, hl, if_true, Out.bind_ok]
                 have K := tth_readKVInfo_eq info fuel (2 + tn) hb62 (by omega) (by omega)
@@ -503,7 +539,7 @@ theorem tth_Decode_eq {σ : Type} (next : σ → Int → RdRes × σ) (errOf : R
                   exact absurd rfl (NP why)
                 | oob => simp [liftMaps, liftDec, obsDec]
                 | err e => exact nomatch e
-              · simp only [hl, if_false, Int.natCast_zero, show ((2 : Nat) : Int) = 2 from rfl] at L
+              · simp only [hl, if_false] at L
                 simp [L, hl, liftDec, obsDec]
           · simp [hc, errProto, liftDec, obsDec, decErr, errNotTTH, errBadSize, mergeKV]
   · have hx' : ¬ ((rd32 (b.drop 4) &&& 4294901760 : Nat) : Int) = 268435456 := by omega
